@@ -1,6 +1,7 @@
 package c12
 
 import (
+	"errors"
 	"fmt"
 	"math"
 	"strings"
@@ -27,6 +28,18 @@ type pinfo struct {
 	ord   int
 	log   *[]int
 	name  string
+	fail  *int // remaining failures of a flaky loader
+}
+
+var errFlaky = errors.New("c12: source temporarily unreadable")
+
+func (p *pinfo) load() ([]byte, error) {
+	p.hit()
+	if p.fail != nil && *p.fail > 0 {
+		*p.fail--
+		return nil, errFlaky
+	}
+	return nil, nil
 }
 
 func (p *pinfo) ident() *pinfo { return p }
@@ -273,19 +286,19 @@ func TestRunners(t *testing.T) {
 
 type LoadPO struct{ PO }
 
-func (r *LoadPO) LoadConfig() ([]byte, error) { r.hit(); return nil, nil }
+func (r *LoadPO) LoadConfig() ([]byte, error) { return r.load() }
 
 type LoadOO struct{ OO }
 
-func (r *LoadOO) LoadConfig() ([]byte, error) { r.hit(); return nil, nil }
+func (r *LoadOO) LoadConfig() ([]byte, error) { return r.load() }
 
 type LoadNO struct{ NO }
 
-func (r *LoadNO) LoadConfig() ([]byte, error) { r.hit(); return nil, nil }
+func (r *LoadNO) LoadConfig() ([]byte, error) { return r.load() }
 
 type LoadMO struct{ MO }
 
-func (r *LoadMO) LoadConfig() ([]byte, error) { r.hit(); return nil, nil }
+func (r *LoadMO) LoadConfig() ([]byte, error) { return r.load() }
 
 func TestLoaders(t *testing.T) {
 	kit.Rec.Rule(rule)
@@ -628,11 +641,33 @@ func TestLoadersReinit(t *testing.T) {
 		} else {
 			c.AddLoaders(ls...)
 		}
-		if err := c.Initialize(); err != nil {
-			t.Fatalf("Initialize: %v", err)
+		// now and then one source of the first batch is unreadable once: Initialize reports it, and the caller's retry
+		// is a complete initialisation again - every loader, in sequence
+		flaky := -1
+		if len(first) > 0 && rapid.IntRange(0, 2).Draw(t, "flaky") == 0 {
+			flaky = rapid.IntRange(0, len(first)-1).Draw(t, "flakyidx")
+			n := 1
+			ls[flaky].(part).ident().fail = &n
 		}
-		if err := checkSeq(first, log); err != nil {
-			t.Fatalf("first initialisation: loader sequence: %v", err)
+		err := c.Initialize()
+		if flaky >= 0 {
+			// (whether and how the failure is reported is not this property's business)
+			if err == nil || rapid.Bool().Draw(t, "retrynow") {
+				log = nil
+				if err := c.Initialize(); err != nil {
+					t.Fatalf("retry of Initialize: %v", err)
+				}
+				if err := checkSeq(first, log); err != nil {
+					t.Fatalf("retry after loader %d had failed once: loader sequence: %v", flaky, err)
+				}
+			}
+		} else {
+			if err != nil {
+				t.Fatalf("Initialize: %v", err)
+			}
+			if err := checkSeq(first, log); err != nil {
+				t.Fatalf("first initialisation: loader sequence: %v", err)
+			}
 		}
 		log = nil
 		var ls2 []configure.Loader
@@ -647,6 +682,10 @@ func TestLoadersReinit(t *testing.T) {
 			t.Fatalf("second initialisation after AddLoaders (first batch %v, added %v): loader sequence: %v", first, second, err)
 		}
 		d, nt, labels := describe("loaders-reinit", specs)
+		if flaky >= 0 {
+			d += fmt.Sprintf(" flaky=%d", flaky)
+			labels = append(labels, "retry-after-failed-initialize")
+		}
 		kit.Rec.Case(d, nt, labels...)
 	})
 }
